@@ -15,7 +15,7 @@ def run(tier, replay=None):
     if replay:
         cases = [json.load(open(replay))["witness"]["case"]]
     hc = [{"id": i + 1, "mode": "observe", "text": c["text"], "want": ["nodes", "errors", "lints"]} for i, c in enumerate(cases)]
-    tp, hevs = run_harness(rvh, hc, wd, "inject")
+    tp, hevs = run_harness_par(rvh, hc, wd, "inject")
     tr = [{"id": e["id"], "ev": e["ev"], "prop": "C05",
            "case": {"inj": c["inj"], "codes": c["codes"], "line": c["line"], "alt": c["alt"], "reg": c["reg"]},
            "diags": diags_of(e) if e["ev"] == "obs" else []} for e, c in zip(hevs, cases)]
